@@ -171,16 +171,18 @@ def known_for(prop):
 def write_evidence(prop, tier, level, coverage, wall, violations, assumptions):
     ev = {"property_id": prop, "tier": tier, "seed": seed(), "level": level, "coverage": coverage,
           "assumptions": assumptions, "wall_s": round(wall, 2), "violations": violations}
-    os.makedirs(os.path.join(VERIF, "evidence"), exist_ok=True)
-    with open(os.path.join(VERIF, "evidence", f"{prop}.json"), "w") as fh:
+    out = os.environ.get("VERIF_OUT", VERIF)     # the self-test redirects evidence/replays of runs on seeded copies
+    os.makedirs(os.path.join(out, "evidence"), exist_ok=True)
+    with open(os.path.join(out, "evidence", f"{prop}.json"), "w") as fh:
         json.dump(ev, fh, indent=1)
     return ev
 
 
 def write_replay(prop, key, payload):
-    os.makedirs(os.path.join(VERIF, "replays"), exist_ok=True)
+    out = os.environ.get("VERIF_OUT", VERIF)
+    os.makedirs(os.path.join(out, "replays"), exist_ok=True)
     h = hashlib.sha1(key.encode()).hexdigest()[:10]
-    p = os.path.join(VERIF, "replays", f"{prop}-{h}.json")
+    p = os.path.join(out, "replays", f"{prop}-{h}.json")
     with open(p, "w") as fh:
         json.dump(payload, fh, indent=1)
     return p
